@@ -31,6 +31,7 @@ class TcpConnection():
         self._send_buffer = b""
         self.send_data_stream_queued = False
         self.data_stream = b""
+        self._out_pending = b""
         self._recv_data_stream = b""
 
         self._recv_data_available = threading.Event()
@@ -113,9 +114,6 @@ class TcpConnection():
             self.tracking_events_count += TRACKING_SOCKET_EVENTS_TIMEOUT
 
             for key, mask in self.events:
-                if key.data is not None:
-                    self.data_stream += key.data
-
                 if mask & selectors.EVENT_WRITE:
                     tcp_connection.debug(f"Selector notified EVENT_WRITE")
                     self.write()
@@ -127,6 +125,12 @@ class TcpConnection():
 
     def _set_selector_events_mask(self, mode: Literal["r", "w", "rw"], msg: Any = None) -> None:
         self.lock.acquire()
+        if msg:
+            self._out_pending += msg
+
+        if mode == "r" and (self._out_pending or self._send_buffer):
+            mode = "rw"
+
         if mode == "r":
             tcp_connection.debug(f"[Socket-{self.sock_id}] Updating "\
                                  f"selector events mask [READ]")
@@ -141,7 +145,7 @@ class TcpConnection():
                                  f"selector events mask [WRITE]")
 
             self.events_mask = selectors.EVENT_WRITE
-            self.selector.modify(self.sock, self.events_mask, data=msg)
+            self.selector.modify(self.sock, self.events_mask)
             self.write_mode_on.set()
             self.read_mode_on.clear()
 
@@ -151,7 +155,7 @@ class TcpConnection():
                                  f"selector events mask [READ/WRITE]")
 
             self.events_mask = selectors.EVENT_READ | selectors.EVENT_WRITE
-            self.selector.modify(self.sock, self.events_mask, data=msg)
+            self.selector.modify(self.sock, self.events_mask)
             self.write_mode_on.set()
             self.read_mode_on.set()
 
@@ -182,19 +186,19 @@ class TcpConnection():
 
 
     def write(self) -> None:
-        if not self.send_data_stream_queued and self.data_stream:
-            self._send_buffer += self.data_stream
-            self.data_stream = b""
-            self.send_data_stream_queued = True
+        self.lock.acquire()
+        if self._out_pending:
+            self._send_buffer += self._out_pending
+            self._out_pending = b""
             tcp_connection.debug(f"[Socket-{self.sock_id}] Stream data has "\
                                  f"been queued into _send_buffer: "\
                                  f"{self._send_buffer.hex()}")
+        self.lock.release()
 
         self._write()
 
-        if self.send_data_stream_queued and not self._send_buffer:
+        if not self._send_buffer:
             self._set_selector_events_mask("r")
-            self.send_data_stream_queued = False
             tcp_connection.debug(f"[Socket-{self.sock_id}] There is no "\
                                  f"data to be sent for a while")
 
